@@ -109,7 +109,8 @@ class Origins:
                     nm = t.callee_name()
                     if t.args and t.args[0].place is not None and (nm in BORROWING or nm in ("unwrap", "expect", "get_mut", "insert", "or_insert", "or_insert_with", "into_mut", "next", "next_back", "enumerate", "rev", "take", "skip", "zip")) and self._is_ptr_like_result(l):
                         o = self.of_place(t.args[0].place, stack + (l,), value=True)
-                        if o is not None and nm in ("index_mut", "index", "get_mut", "get", "iter_mut", "iter", "first_mut", "last_mut", "entry", "values_mut"):
+                        if o is not None and (nm in ("index_mut", "index", "get_mut", "get", "iter_mut", "iter", "first_mut", "last_mut", "entry", "values_mut")
+                                              or (nm == "into_iter" and fn.local_ty(l).startswith(("std::slice::IterMut<", "std::slice::Iter<")) and not o.path[-1:] == ("[]",))):
                             o = o.extend(["[]"])
                         outs.append(o)
                     else:
@@ -492,13 +493,67 @@ class PathEnumerator:
             return
         if (frm, to) in self.back:
             c = backcount.get((frm, to), 0)
-            if c >= self.max_back:
+            if c >= max(self.max_back, self._array_loop_len(to)):
                 return
             backcount = dict(backcount)
             backcount[(frm, to)] = c + 1
         yield from self._walk(to, blocks, evs, env, cls, backcount, state)
 
     # ------------------------------------------------------------------------------
+    def _array_loop_len(self, head):
+        """number of items when the loop at `head` iterates a literal array (`for x in &[a, b]`), else 0"""
+        if not hasattr(self, "_arr_len"):
+            self._arr_len = {}
+        if head not in self._arr_len:
+            n = 0
+            fn = self.fn
+            if head in fn.loop_heads():
+                for b in fn.natural_loop(head):
+                    t = fn.blocks[b].term
+                    if t.k == "call" and t.callee_name() == "next" and len(t.args) == 1:
+                        a = self.tb.operand(t.args[0], b, len(fn.blocks[b].stmts))
+                        if a[0] == "loopvar" and a[2] == head:
+                            init = self.tb.loop_init(a[1], a[2])
+                            if init[0] == "array" and len(init[1]) <= 4:
+                                n = len(init[1])
+            self._arr_len[head] = n
+        return self._arr_len[head]
+
+    def _tuple_field_source(self, place, at_bb):
+        """for `_t.k` where _t is built once as a tuple of plain locals: the local that was put into field k, provided it cannot have
+        been reassigned between the construction of the tuple and block at_bb"""
+        fn = self.fn
+        flds = [pr for pr in place.proj if pr["k"] == "field"]
+        if len(place.proj) != 1 or len(flds) != 1:
+            return None
+        ds = fn.defs().get(place.local, [])
+        if len(ds) != 1 or ds[0][2] != "stmt" or ds[0][3].rv.k != "aggregate" or ds[0][3].rv.j.get("ak") != "tuple":
+            return None
+        tb_, ti = ds[0][0], ds[0][1]
+        ops = ds[0][3].rv.ops
+        k = flds[0].get("i")
+        if k is None or k >= len(ops) or ops[k].place is None or not ops[k].place.is_local():
+            return None
+        src = ops[k].place.local
+        # the operand is usually a temporary copied from the interesting local a statement earlier in the same block
+        sd = fn.defs().get(src, [])
+        if len(sd) == 1 and sd[0][2] == "stmt" and sd[0][0] == tb_ and sd[0][1] < ti and sd[0][3].rv.k == "use" \
+                and sd[0][3].rv.ops[0].place is not None and sd[0][3].rv.ops[0].place.is_local():
+            orig = sd[0][3].rv.ops[0].place.local
+            if not any(b == tb_ and sd[0][1] < i < ti for (b, i, kind, obj) in fn.defs().get(orig, [])):
+                src = orig
+        from .guards import reach_without
+        for (b, i, kind, obj) in fn.defs().get(src, []):
+            if b == tb_ and i < ti:
+                continue
+            if b == tb_ and i > ti and at_bb == tb_:
+                return None
+            if b != tb_ and (b == at_bb or reach_without(fn, b, at_bb, tb_)) and fn.dominates(tb_, b):
+                return None
+        if src in self.tb.clobbers():
+            return None
+        return src
+
     def _refine_cls(self, bb, dl, v, cls):
         """after branching on local dl == v, refine variant classes through `discriminant(x)` defs"""
         if dl is None:
@@ -507,14 +562,15 @@ class PathEnumerator:
         # find the def of dl in this block: `_dl = discriminant(place)`
         for st in reversed(fn.blocks[bb].stmts):
             if st.k == "assign" and st.place.is_local() and st.place.local == dl:
-                if st.rv.k == "discr" and st.rv.place.is_local():
-                    src = st.rv.place.local
-                    kind = enum_kind_of_ty(fn.local_ty(src))
-                    if kind and v in IDX_VARIANT[kind]:
-                        c2 = dict(cls)
-                        old = cls.get(src)
-                        c2[src] = (IDX_VARIANT[kind][v], old[1] if old else None)
-                        return c2
+                if st.rv.k == "discr":
+                    src = st.rv.place.local if st.rv.place.is_local() else self._tuple_field_source(st.rv.place, bb)
+                    if src is not None:
+                        kind = enum_kind_of_ty(fn.local_ty(src))
+                        if kind and v in IDX_VARIANT[kind]:
+                            c2 = dict(cls)
+                            old = cls.get(src)
+                            c2[src] = (IDX_VARIANT[kind][v], old[1] if old else None)
+                            return c2
                 break
         return cls
 
@@ -550,9 +606,9 @@ class PathEnumerator:
                     src = o.place.local
                     val = env.get(src)
                     c = cls.get(src)
-            elif rv.k == "discr" and rv.place.is_local():
-                src = rv.place.local
-                if src in cls and cls[src][0] in VARIANT_IDX:
+            elif rv.k == "discr":
+                src = rv.place.local if rv.place.is_local() else self._tuple_field_source(rv.place, bb)
+                if src is not None and src in cls and cls[src][0] in VARIANT_IDX:
                     val = VARIANT_IDX[cls[src][0]]
             elif rv.k == "aggregate" and rv.j["ak"] == "adt":
                 kind = enum_kind_of_ty(fn.local_ty(l))
@@ -652,6 +708,9 @@ class PathEnumerator:
               "args": args, "dest": dest, "bb": bb, "span": t.span, "ret": None, "ret_payload": None,
               "ptr_args": ptr_args, "term": t, "origin_fn": fn.key}
 
+        if name in ("unwrap", "expect") and t.args and t.args[0].place is not None and t.args[0].place.is_local():
+            v = cls.get(t.args[0].place.local)
+            ev["arg_variant"] = v[0] if v else None
         alts = None
         if self.inline and self.summ is not None and t.callee_is_local() and self.prog.fn(callee) is not None:
             alts = self.summ.alternatives(callee)
@@ -669,7 +728,7 @@ class PathEnumerator:
                 e2["ret_payload"] = payload
                 evs2, state2 = self._push(evs, state, e2)
                 for w in wevs:
-                    rb = self._rebase(w, ptr_args, t)
+                    rb = self._rebase(w, ptr_args, t, args)
                     if rb is not None:
                         evs2, state2 = self._push(evs2, state2, rb)
                 evs2, state2 = self._push(evs2, state2, {"kind": "callend", "callee": callee, "name": name, "bb": bb, "ret": ret, "span": t.span})
@@ -776,6 +835,17 @@ class PathEnumerator:
                     cls2[dest] = ("None", None)
             elif name == "entry" and decl.endswith("HashMap::entry"):
                 forks = [("cls", ("Occupied",)), ("cls", ("Vacant",))]
+            elif name == "next" and len(args) == 1 and args[0][0] == "loopvar":
+                # iterating a literal array `[a, b]`: exactly len items, so the k-th next() on a path is Some for k < len, None after
+                init = self.tb.loop_init(args[0][1], args[0][2])
+                if init[0] == "array" and 1 <= len(init[1]) <= 4:
+                    done = -1      # (the event of this very call is already on the list)
+                    node = evs2
+                    while node:
+                        node, e_ = node
+                        if e_["kind"] == "call" and e_["bb"] == bb and e_["name"] == "next":
+                            done += 1
+                    cls2[dest] = ("Some" if done < len(init[1]) else "None", None)
         if target is None:
             self._count += 1
             yield self._emit(blocks, evs2, "diverge", env2, state2)
@@ -792,6 +862,10 @@ class PathEnumerator:
                     c3[srcl] = ("Some" if fk[1][0] == "Continue" else "None", None)
             elif fk[0] == "cls":
                 c3[dest] = (fk[1][0], None)
+                # the variant this path assumes for the call's result (HashMap::entry: Occupied / Vacant)
+                evs3, state3 = self._push(evs2, state2, {"kind": "assume", "variant": fk[1][0], "of": ev, "bb": bb, "span": t.span})
+                yield from self._next(bb, target, blocks, evs3, e3, c3, backcount, state3)
+                continue
             elif fk[0] is not None:
                 e3[dest] = fk[0]
                 c3[fk[1][0]] = (fk[1][1], cls.get(fk[1][0], (None, None))[1])
@@ -820,8 +894,19 @@ class PathEnumerator:
                 return obj.rv.place.local
         return None
 
-    def _rebase(self, w, ptr_args, t):
+    def _rebase(self, w, ptr_args, t, args=None):
         """translate a callee write event (rooted at callee param) into the caller's frame"""
+        if args is not None and self.prog is not None and (w.get("args") or w.get("value") is not None):
+            # the callee's parameters in the terms of the event are the caller's argument terms
+            cf = self.prog.fn(t.callee())
+            if cf is not None:
+                from .terms import subst_term
+                m = {("param", i + 1, cf.local_name(i + 1)): a for i, a in enumerate(args) if i + 1 <= cf.arg_count}
+                w = dict(w)
+                if w.get("args"):
+                    w["args"] = [subst_term(x, m) for x in w["args"]]
+                if w.get("value") is not None:
+                    w["value"] = subst_term(w["value"], m)
         root = w["root"]
         if root[0] != "param":
             return None
